@@ -572,6 +572,8 @@ def full_circle_spreading(repo, rep):
 
 
 def run(repo, rep, tier):
+    from .round7b import hygiene
+    hygiene(repo, rep, "C15", ('wavespectra.construct',), falsy=True)
     rep.rule("R-C15-13", "the exponent s of the cos-2s spreading is the exact function of the requested spread: no limiter on it (a clipped s gives every broader / "
                          "narrower request the limit's spread)")
     rep.rule("R-C15-14", "a choice between two constructed shapes is made with where(), never by blending `cond * a + (1 - cond) * b` (0 * NaN leaks the shape that "
